@@ -252,7 +252,7 @@ class Builder:
                 elif isinstance(v, int):
                     kw[name] = v + 1 if v == 0 else v - 1
                 elif isinstance(v, str):
-                    kw[name] = "".join("z" if ch != "z" else "q" for ch in v) or "decoy"
+                    kw[name] = ("".join("z" if ch != "z" else "q" for ch in v) or "decoy") + "+1"
                 else:
                     kw[name] = v
             else:
